@@ -20,7 +20,7 @@ def sh(cmd, cwd=None, timeout=3600):
 
 def main():
     name, src, breaks = sys.argv[1], sys.argv[2], sys.argv[3]
-    checks = sys.argv[4:] or [breaks]
+    checks = [breaks] + [c for c in sys.argv[4:] if c != breaks]
     patch = os.path.join(src, "patch.diff")
     demo = os.path.join(src, "demo_test.go")
     m = re.search(r"func (Test\w+)\(", open(demo).read())
